@@ -19,6 +19,17 @@ fn main() {
         .map(|v| v as u64)
         .unwrap_or(0);
     // the main thread only coordinates; all library calls happen on big-stack worker threads
+    if args[1] == "c14-configs" {
+        vcheck::props::c14::print_configs(args[2] == "thorough");
+        return;
+    }
+    if args[1] == "child" {
+        match args[2].as_str() {
+            "c09" => vcheck::props::c09::child_main(),
+            _ => usage(),
+        }
+        return;
+    }
     let code = if args[1] == "replay" {
         let text = match std::fs::read_to_string(&args[2]) {
             Ok(t) => t,
